@@ -4,6 +4,7 @@ import (
 	"context"
 	"errors"
 	"fmt"
+	"time"
 
 	corev1 "k8s.io/api/core/v1"
 	apierrors "k8s.io/apimachinery/pkg/api/errors"
@@ -33,6 +34,12 @@ type APICall struct {
 	Fault  string
 	Err    error
 	ReadRV map[string]string
+	// SyncStart is when the acting worker was handed its current item.
+	SyncStart time.Time
+	// Grace is the grace period of a delete call (nil = default).
+	Grace *int64
+	// PreObj is the authoritative object just before the call took effect.
+	PreObj runtime.Object
 }
 
 // apiCall is the API seam: request leg (park), fault decision, effect, response
@@ -52,7 +59,12 @@ func (p *Proc) apiCall(verb string, res Resource, ns, name string, effect func(a
 	if p.dead {
 		return nil, errProcDead
 	}
-	call := &APICall{Proc: p.name, Task: t.id, Ctrl: t.ctrl(), Verb: verb, Res: res, NS: ns, Name: name, ReadRV: t.readSet}
+	call := &APICall{Proc: p.name, Task: t.id, Ctrl: t.ctrl(), Verb: verb, Res: res, NS: ns, Name: name, ReadRV: t.readSet, SyncStart: t.syncStart}
+	call.PreObj = p.api.Peek(res, ns, name)
+	if g, ok := s.pendingGrace[t]; ok {
+		call.Grace = g
+		delete(s.pendingGrace, t)
+	}
 	s.callN++
 	call.N = s.callN
 	kk := call.Ctrl + " " + verb + " " + string(res)
@@ -258,6 +270,7 @@ func (c *podClient) Create(ctx context.Context, pod *corev1.Pod, opts metav1.Cre
 	}))
 }
 func (c *podClient) Delete(ctx context.Context, name string, opts metav1.DeleteOptions) error {
+	c.proc.sim.noteGrace(c.proc, opts.GracePeriodSeconds)
 	_, err := c.proc.apiCall("delete", ResPods, c.ns, name, func(actor string) (runtime.Object, error) {
 		return nil, c.proc.api.Delete(actor, ResPods, c.ns, name, opts)
 	})
